@@ -431,6 +431,43 @@ def _prepared(form, result, buf, req):
     return {"r": result, "n": 2}
 
 
+FAMILY_ROLES = ("base", "grandbase", "mixin", "derived", "sibling", "unrelated")
+
+
+def _build_family(rec, fam, own_params, body):
+    """The operation class as it sits in a real code base: in a class hierarchy (GrandBase <- Base <- Op(Base, Mixin) <- Derived,
+    Sibling(Base), Unrelated), the decorated operation defined in the class itself or inherited from a base ("op_in"), as an
+    instance or a class-level operation, and OTHER classes of the hierarchy configured on the SAME recorder with parameters of
+    their own.  fam["register"] is the order of the recording_params registrations: [who, parameters] with who = "own" (the
+    parameters of the case: own_params) or one of FAMILY_ROLES ({"copy", "rate" (None: default), "skipped", "ignore"}).
+    The operation always runs on Op; only Op's own registration says whether copy-on-interception is enabled for it."""
+    if fam.get("classlevel"):
+        member = classmethod(rec.class_operation()(lambda c: body()))
+    else:
+        member = rec.operation()(lambda self: body())
+    op_in = fam.get("op_in", "own")
+
+    def mk(name, bases, who):
+        return type(name, bases, {"execute": member} if op_in == who else {})
+    mixin = type("Mixin", (object,), {})
+    grandbase = mk("GrandBase", (object,), "grandbase")
+    base = mk("Base", (grandbase,), "base")
+    own = mk("Op", (base, mixin), "own")
+    classes = {"own": own, "base": base, "grandbase": grandbase, "mixin": mixin, "derived": type("Derived", (own,), {}),
+               "sibling": type("Sibling", (base,), {}), "unrelated": type("Unrelated", (object,), {})}
+    for who, prm in fam["register"]:
+        if who == "own":
+            p = own_params
+        else:
+            kw = dict(copy_data_on_intercepion=bool(prm.get("copy")), skipped=bool(prm.get("skipped")),
+                      ignore_enforced_sampling=bool(prm.get("ignore")))
+            if prm.get("rate") is not None:
+                kw["sampling_rate"] = prm["rate"]
+            p = RecordingParameters(**kw)
+        rec.recording_params(p)(classes[who])
+    return own
+
+
 def run_copy(case):
     from playback.interception.input_interception import InputInterceptionDataHandler
     cas = InMemoryTapeCassette()
@@ -512,33 +549,44 @@ def run_copy(case):
     params = RecordingParameters(copy_data_on_intercepion=flag) if rate is None else \
         RecordingParameters(sampling_rate=rate, copy_data_on_intercepion=flag)
 
-    @rec.recording_params(params)
-    class Op(object):
-        @rec.operation()
-        def execute(self):
-            svc = Svc()
-            into = hg.build(case["vbuf"])[1] if "vbuf" in case else []
-            req = hg.build(case["vreq"])[1] if "vreq" in case else {"q": [1]}
-            held["into"], held["req"] = into, req
-            at("start")
-            if via == "kwarg":
-                a = svc.load(1, into=into, req=req)
-            else:
-                a = svc.load(1, into, req=req)
-            held["returned_is_original"] = (a is held.get("result"))
-            at("after_input")
-            # the service goes on working, in place, on everything it holds
-            hg.mutate(a, script)
-            hg.mutate(into, script)
-            hg.mutate(req, script)
-            at("after_mutation")
-            r = svc.store("x")
-            cap["res"]["returned_is_original"] = (r is cap["res"]["value"])
-            hg.mutate(r, script)
-            at("end")
-            return 1
+    def body():
+        svc = Svc()
+        into = hg.build(case["vbuf"])[1] if "vbuf" in case else []
+        req = hg.build(case["vreq"])[1] if "vreq" in case else {"q": [1]}
+        held["into"], held["req"] = into, req
+        at("start")
+        if via == "kwarg":
+            a = svc.load(1, into=into, req=req)
+        else:
+            a = svc.load(1, into, req=req)
+        held["returned_is_original"] = (a is held.get("result"))
+        at("after_input")
+        # the service goes on working, in place, on everything it holds
+        hg.mutate(a, script)
+        hg.mutate(into, script)
+        hg.mutate(req, script)
+        at("after_mutation")
+        r = svc.store("x")
+        cap["res"]["returned_is_original"] = (r is cap["res"]["value"])
+        hg.mutate(r, script)
+        at("end")
+        return 1
 
-    Op().execute()
+    fam = case.get("family")
+    if fam is None:
+        @rec.recording_params(params)
+        class Op(object):
+            @rec.operation()
+            def execute(self):
+                return body()
+        Op().execute()
+    else:
+        # the operation class lives in a class hierarchy, and OTHER classes are configured on the same recorder
+        Op = _build_family(rec, fam, params, body)
+        if fam.get("classlevel"):
+            Op.execute()
+        else:
+            Op().execute()
     out = {"copy": flag, "saved": bool(live_saved), "values": []}
     for tag, prefix in (("in", "input: load"), ("res", "output: store #1.result")):
         key = next((k for k in sorted(live) if k.startswith(prefix)), None)
